@@ -1607,17 +1607,25 @@ class ForAll(BinaryOperator):
         self.solution_set = []
 
         candidates = None
-        for var_val in self.variable._evaluate__(copy(sources)):
-            universal_context = {**sources, **var_val}
-            if candidates is None:
-                # seed with every binding of the other variables that satisfies the condition for this value
-                candidates = list(self._satisfying_bindings_(universal_context))
-            else:
-                # keep the bindings that satisfy the condition for this value as well
-                candidates = [c for c in candidates if self._holds_({**universal_context, **c})]
-            # Early exit if no binding is left
-            if not candidates:
-                break
+        # the universal expression is used as a value here and the condition as a condition, also when the same
+        # expression objects are mentioned in other expressions (built later, which makes those their primary parents).
+        variable_prev, condition_prev = self.variable._eval_parent_, self.condition._eval_parent_
+        self.variable._eval_parent_ = self
+        self.condition._eval_parent_ = self
+        try:
+            for var_val in self.variable._evaluate__(copy(sources)):
+                universal_context = {**sources, **var_val}
+                if candidates is None:
+                    # seed with every binding of the other variables that satisfies the condition for this value
+                    candidates = list(self._satisfying_bindings_(universal_context))
+                else:
+                    # keep the bindings that satisfy the condition for this value as well
+                    candidates = [c for c in candidates if self._holds_({**universal_context, **c})]
+                # Early exit if no binding is left
+                if not candidates:
+                    break
+        finally:
+            self.variable._eval_parent_, self.condition._eval_parent_ = variable_prev, condition_prev
 
         self.solution_set = candidates or []
 
@@ -1637,6 +1645,7 @@ class ForAll(BinaryOperator):
         seen = set()
         # every evaluation of the condition is independent of the ones done for other universal values.
         self.condition._reset_cache_()
+        self.condition._eval_parent_ = self
         for condition_val in self.condition._evaluate__(copy(context)):
             if self.condition._is_false_:
                 continue
@@ -1657,6 +1666,7 @@ class ForAll(BinaryOperator):
         Whether the condition is true in a context that binds all of its variables.
         """
         self.condition._reset_cache_()
+        self.condition._eval_parent_ = self
         for _ in self.condition._evaluate__(context):
             if not self.condition._is_false_:
                 return True
